@@ -118,7 +118,7 @@ def handle (fn : String) (a : Json) : Option (Except String Json) :=
       let f ← findFn "get_workflow_definition"
       let db ← dbOfJson (← a.getObjVal? "db")
       let actor ← actorOfJson (← a.getObjVal? "actor")
-      pure (result (share secureSpec f db actor (← a.getObjValAs? Nat "res") (← a.getObjValAs? Nat "member")))
+      pure (result (share secureSpec ownerSpec f db actor (← a.getObjValAs? Nat "res") (← a.getObjValAs? Nat "member")))
   | "access.memberUpdate" => some do
       let db ← dbOfJson (← a.getObjVal? "db")
       let actor ← actorOfJson (← a.getObjVal? "actor")
@@ -142,7 +142,7 @@ def handle (fn : String) (a : Json) : Option (Except String Json) :=
       pure (Json.arr (Mistral.Gen.DbAccess.fns.map (fun f => Json.mkObj [
         ("name", f.name), ("model", f.model), ("kind", toString (repr f.kind)), ("key", toString (repr f.key)),
         ("read", toString (repr f.read)), ("mut", toString (repr f.mutn)), ("bulk", f.bulk),
-        ("ownerCheck", f.ownerCheck), ("notFound", f.notFound), ("reachable", f.reachable),
+        ("ownerCheck", f.ownerCheck), ("sysCheck", f.sysCheck), ("notFound", f.notFound), ("reachable", f.reachable),
         ("known", f.known)])).toArray)
   | _ => none
 
